@@ -86,6 +86,8 @@ def run(ctx, rep):
     check_track_sections(ctx, rs, "sync")
     check_dispatcher(ctx, rs)
     c, pf, order, idx, pcall = kinds_of(ctx, "sync")
+    if pf is None:
+        pf = c.find_method("from_chart_lines") or c
     rs.inst(f"sync kinds tried: {order}")
     if order is not None and sorted(order) != sorted(KINDS):
         fail(rs, ctx, pf, pf.node, f"sync section tries kinds {order}; expected the tempo, time-signature and anchor recognisers")
@@ -93,3 +95,6 @@ def run(ctx, rep):
                             "hands the lines on unchanged", floor=10)
     from .chain import check_chain
     check_chain(ctx, rch, "sync", strict=True)
+    rfo = rep.rule("folds", "each kind's data are folded datum by datum, in order, by that kind's own builder with its predecessor and the tempo map", floor=6)
+    from .timing import Timing as _T
+    _T(ctx).check_folds(rfo)
